@@ -2,7 +2,7 @@
 // sess_harness.hpp; everything said in coq/Sess/READY.md about histories and traces applies).
 //
 // Additional operation
-//   CONC [y=<seed>] [tick=<n>] <prog> <prog> ...      one <prog> per application thread (2..8; 1 is allowed)
+//   CONC [y=<seed>] [tick=<n>] [in=<hex>,<hex>,..] <prog> <prog> ...      one <prog> per application thread (2..8; 1 is allowed)
 //        prog  = call ('+' call)*  |  '-' (empty program)
 //        call  = S:<msgspec>                 Session::send(Message*, destroy = true, custom, no_increment)
 //              | P:<msgspec>                 Session::send(Message*, destroy = false, custom, no_increment)
@@ -22,6 +22,12 @@
 //        more thread that calls Session::heartbeat_service() again and again (n yields in between) until the
 //        senders are done (the timer thread's job in production; used by the TSan runs -- with the virtual
 //        clock frozen and a Logon exchanged it only READS the session's time stamps).
+//        in=..: one more thread plays the counterparty and pushes the given inbound messages (valid Heartbeats with
+//        consecutive numbers) into the socket one by one while the senders run; the session's reader thread processes
+//        them (each ends in update_persist_seqnums under _per_spl).  During a CONC the session's persister is wrapped
+//        (OverlapPersister below): an atomic in-flight counter around every put, which dwells 20 us, counts puts that
+//        overlap another put; the event OVERLAP <n> reports it (0 in the code as it is: senders and reader both take
+//        _per_spl in pm_thread).  The events of the step are ordered OUT.. first, then RET.. of the inbound messages.
 //        Quiescence: pm_thread/pm_coro -- all threads joined (every call is synchronous).  pm_pipeline -- wait
 //        until every submitted message is on the wire AND next_send has reached <before> + <number of messages>
 //        (the increment is the last shared action of send_process, so then the writer thread is idle and its
@@ -193,6 +199,48 @@ struct Call
 	bool noinc = false;
 };
 
+/// forwards to the real persister; counts put() calls that overlap another put() (see the header comment)
+class OverlapPersister : public Persister
+{
+	Persister *_in;
+	std::atomic<int> _inflight;
+	void dwell()
+	{
+		const int64_t t0(vclock_real_ns());
+		while (vclock_real_ns() - t0 < 20000) {}
+	}
+	struct Gate
+	{
+		OverlapPersister& p;
+		explicit Gate(OverlapPersister& q) : p(q) { if (p._inflight.fetch_add(1) > 0) p.overlaps.fetch_add(1); p.dwell(); }
+		~Gate() { p._inflight.fetch_sub(1); }
+	};
+public:
+	std::atomic<unsigned long> overlaps;
+	explicit OverlapPersister(Persister *in) : _in(in), _inflight(0), overlaps(0) {}
+	bool put(const unsigned seqnum, const f8String& what) override { Gate g(*this); return _in->put(seqnum, what); }
+	bool put(const f8String& key, const f8String& what) override { Gate g(*this); return _in->put(key, what); }
+	bool put(const unsigned a, const unsigned b) override { Gate g(*this); return _in->put(a, b); }
+	bool get(const unsigned seqnum, f8String& to) const override { return _in->get(seqnum, to); }
+	bool get(const f8String& key, f8String& to) const override { return _in->get(key, to); }
+	bool del(const f8String& key) override { return _in->del(key); }
+	unsigned get(const unsigned from, const unsigned to, Session& session,
+		bool (Session::*callback)(const Session::SequencePair& with, Session::RetransmissionContext& rctx)) const override
+		{ return _in->get(from, to, session, callback); }
+	unsigned get_last_seqnum(unsigned& to) const override { return _in->get_last_seqnum(to); }
+	bool get(unsigned& a, unsigned& b) const override { return _in->get(a, b); }
+	unsigned find_nearest_highest_seqnum(const unsigned requested, const unsigned last) const override
+		{ return _in->find_nearest_highest_seqnum(requested, last); }
+	bool purge() override { return _in->purge(); }
+	void stop() override { _in->stop(); }
+};
+
+/// Session::_persist is protected: reach it through a pointer to member named in a derived class
+struct PersistAccess : Session
+{
+	static Persister *& ref(Session& s) { return s.*(&PersistAccess::_persist); }
+};
+
 class C25Harness : public vsess::SessHarness
 {
 	/// give up only after this much REAL time without any progress of the writer thread (the machine may be heavily
@@ -263,12 +311,14 @@ protected:
 			return false;
 		if (!_ss) { _log.add("NOSESSION"); return true; }
 		unsigned seed(0), nticks(0);
+		std::vector<std::string> inbound;
 		std::vector<std::vector<Call>> progs;
 		for (size_t i(1); i < t.size(); ++i)
 		{
 			const std::string& tok(t[i]);
 			if (tok.compare(0, 2, "y=") == 0) { seed = static_cast<unsigned>(std::stoul(tok.substr(2))); continue; }
 			if (tok.compare(0, 5, "tick=") == 0) { nticks = static_cast<unsigned>(std::stoul(tok.substr(5))); continue; }
+			if (tok.compare(0, 3, "in=") == 0) { for (const auto& h : split(tok.substr(3), ',')) if (!h.empty()) inbound.push_back(unhex(h)); continue; }
 			std::vector<Call> prog;
 			if (tok != "-")
 			{
@@ -375,6 +425,23 @@ protected:
 					for (unsigned j(0); j < nticks; ++j) sched_yield();
 				}
 			});
+		OverlapPersister *wrap(nullptr);
+		if (_ss->persister())
+		{
+			wrap = new OverlapPersister(_ss->persister());
+			PersistAccess::ref(*_ss) = wrap;
+		}
+		std::thread feeder;
+		if (!inbound.empty())
+			feeder = std::thread([&]()
+			{
+				while (!go.load()) sched_yield();
+				for (const auto& m : inbound)
+				{
+					_impl->push_in(m);
+					for (int j(0); j < 30; ++j) sched_yield();
+				}
+			});
 		while (ready.load() < n) sched_yield();
 		std::fputs("C25-CONC-BEGIN\n", stderr);
 		bigblocks::state.store(0);
@@ -383,9 +450,24 @@ protected:
 		for (auto& th : ths) th.join();
 		done.store(true);
 		if (ticker.joinable()) ticker.join();
-		bigblocks::session.store(nullptr);
+		if (feeder.joinable()) feeder.join();
+		if (!inbound.empty())
+			wait_quiet();                 // pm_thread: the reader thread has processed everything and is blocked again
 		if (_p.pm == pm_pipeline)
 			wait_writer(frames0 + total, before + static_cast<unsigned>(total));
+		bigblocks::session.store(nullptr);
+		if (wrap)
+		{
+			PersistAccess::ref(*_ss) = _per;
+			_log.add("OVERLAP " + std::to_string(wrap->overlaps.load()));
+			delete wrap;
+		}
+		{
+			// OUT.. in wire order first, then what the reader thread logged for the inbound messages, then the rest
+			std::lock_guard<std::mutex> g(_log.m);
+			std::stable_partition(_log.ev.begin(), _log.ev.end(), [](const std::string& e) { return e.compare(0, 3, "OUT") == 0; });
+			std::stable_partition(_log.ev.begin(), _log.ev.end(), [](const std::string& e) { return e.compare(0, 3, "OUT") == 0 || e.compare(0, 4, "RET ") == 0; });
+		}
 		std::fprintf(stderr, "C25-CONC-END ticks=%lu\n", tick_count);
 		for (size_t i(0); i < n; ++i)
 			_log.add("TRET " + std::to_string(i) + ' ' + (rets[i].empty() ? std::string("-") : rets[i]));
